@@ -5,7 +5,7 @@ RULE = ("3 ML-DSA sets: keys from random seeds; signing through the API under co
         "pure / SHA-256 / SHA-512 pre-hash; each API signature must equal the raw signature of the FIPS 204 representative M' built "
         "independently in Python (hashlib digests); verification under the same framing must accept, under every other "
         "(context, mode, hash) framing of the same message -- including ctx/message pairs with the same concatenation -- must reject; "
-        "contexts > 255 bytes must give none / false. Messages of 2^16+1 and 2^20+1 bytes go through the same API = raw and cross-mode checks on the implementation. distinct_nontrivial = distinct requests.")
+        "contexts > 255 bytes must give none / false. Messages of 2^16+1 and 2^20+1 bytes go through the same API = raw and cross-mode checks on the implementation. distinct_nontrivial = distinct requests. Messages of the digest sizes (32, 64 bytes); representatives and their tails offered as messages.")
 EXPLANATION = ("Props/C07.lean: framing = FIPS 204 M', injectivity of the framing, >255 refusal, and acceptance of one signature for two "
                "different representatives exhibits an explicit SHAKE-256 collision. The tie checks all ordered framing pairs on the code.")
 ASSUMPTIONS = ["SHA-256/512 digests from python hashlib are given to the model (sha2 crate is external to the crate under test)"]
